@@ -36,12 +36,22 @@ func (qs *queryResponseStream) Stream(resp *serf.QueryResponse) {
 	respCh := resp.ResponseCh()
 	for {
 		select {
-		case a := <-ackCh:
+		case a, ok := <-ackCh:
+			if !ok {
+				// The query was closed: stop selecting on this channel
+				// and wait for the deadline to send the done record.
+				ackCh = nil
+				continue
+			}
 			if err := qs.sendAck(a); err != nil {
 				qs.logger.Printf("[ERR] agent.ipc: Failed to stream ack to %v: %v", qs.client, err)
 				return
 			}
-		case r := <-respCh:
+		case r, ok := <-respCh:
+			if !ok {
+				respCh = nil
+				continue
+			}
 			if err := qs.sendResponse(r.From, r.Payload); err != nil {
 				qs.logger.Printf("[ERR] agent.ipc: Failed to stream response to %v: %v", qs.client, err)
 				return
